@@ -1,11 +1,15 @@
 #include "c_dscore.h"
 
+/* tolerance used by the comparison function: set by c_ensrank
+ * to the tie tolerance of the call */
+static double compare_eps = 1e-8;
+
 /* comparison function for qsort using 2d array */
 static int compare(const void* pa, const void* pb)
 {
     const double *a = pa;
     const double *b = pb;
-    double eps = 1e-8;
+    double eps = compare_eps;
     double diff=a[0]-b[0];
 
     return diff < -1*eps ? -1 : diff>eps ? 1 : 0;
@@ -34,6 +38,9 @@ int c_ensrank(double eps, int nval, int ncol, double* sim, \
 
     if(ncol<=0 || nval <=0)
         return ESIZE;
+
+    /* values closer than the tie tolerance are tied in the sort too */
+    compare_eps = eps;
 
 	/* Initialisations of 2d array to store value and index */
     ensemb = malloc(sizeof *ensemb * 2*ncol);
